@@ -149,3 +149,12 @@ package xrespondent
 //@   before select#1 assert selwaits(p.sendQ)
 //@
 // ---- end generated current-queue contracts ----
+// ---- generated AddPipe contracts (tools/gen_addpipe_contracts.py) ----
+//@ func (*socket).AddPipe
+//@   ghost wasClosed = s.closed at call:Lock#1
+//@   ensures wasClosed ==> result == protocol.ErrClosed && !spawned("receiver") && !spawned("sender")
+//@   ensures !wasClosed && isnil(result) ==> spawned("receiver") && spawned("sender") && has(s.pipes, pp.ID())
+//@   ensures !wasClosed ==> isnil(result)
+//@   before call:SetPrivate#1 assert p.p == pp && p.s == s
+//@
+// ---- end generated AddPipe contracts ----
